@@ -272,10 +272,23 @@ def iter_protocol(ctx, crate, crs, e, tag):
             okp = idd["k"] == "call" and idd["t"]["f"]["name"] == "from_usize"
         ctx.ob("iter-protocol" + tag, b.key, "yields-(id,slot-value)", okp, "%s:%s" % (b.file, s["line"]),
                "the pair's id is from_usize(cursor)")
-    # the loop continues on an empty slot (does not stop at the first hole)
+    # the iteration ends only by running out of slots: every `None` result is dominated by the out-of-range edge of the
+    # cursor bound test (an empty slot continues with the next slot)
+    nones = [(i, s) for i, j, s in b.assigns() if s["p"]["l"] == 0 and s["r"]["k"] == "agg" and s["r"].get("variant") == "None"]
+    out_edges = []
+    for c in q.conds(b, crs):
+        if c.kind == "cmp":
+            a, k2 = kind(b, c.a, e), kind(b, c.b, e)
+            okc, _ = dim.compare_ok(c.op, a, k2)
+            if okc and a == IDX:
+                out_edges.append((c.bb, c.target(True) if c.op in ("Ge", "Gt") else c.target(False)))
+            elif okc and k2 == IDX:
+                out_edges.append((c.bb, c.target(True) if c.op in ("Le", "Lt") else c.target(False)))
+    okn = bool(nones) and bool(out_edges) and all(q.only_via_edges(b, out_edges, i) for i, s in nones)
     loops = b.loops()
-    ctx.ob("iter-protocol" + tag, b.key, "skips-holes", any(len(body) > 3 for h, body, _ in loops), b.loc(),
-           "empty slots are skipped inside a loop instead of ending the iteration")
+    ctx.ob("iter-protocol" + tag, b.key, "skips-holes", okn and any(len(body) > 3 for h, body, _ in loops), b.loc(),
+           "None is returned only when the cursor is out of range; an empty slot continues the loop" if okn else
+           "the iterator can end (return None) although slots remain: ids after a hole are never yielded")
     it = body_by_key(crate, MP + "iter")
     if it is not None:
         ok0 = False
@@ -326,6 +339,10 @@ def serde_shape(ctx, crate, crs, e, tag):
             # element .0 of the enumerate() item
             ok = any(isinstance(x, dict) and x.get("f") == 0 and x.get("of") == "tuple" for x in idd.get("proj", [])) and \
                 idd["k"] == "call" and idd["t"]["f"]["name"] == "enumerate"
+            if ok:
+                # the enumeration runs over the raw sequence (holes included): enumerate(into_iter(vec)), nothing in between
+                src, ch3 = q.origin_thru(de, idd["t"]["args"][0], transparent=set())
+                ok = src["k"] == "call" and src["t"]["f"]["name"] == "into_iter" and "Vec" in (src["t"]["f"].get("self_ty") or src["t"]["f"].get("resolved") or "")
         ctx.ob("serde-shape" + tag, de.key, "insert(from_usize(i))", ok, where_call(de, i),
                "slot i of the sequence is stored under id i")
         # only Some slots are inserted
